@@ -499,8 +499,32 @@ fn one_case(ctx: &Ctx, rng: &mut Rng, st: &mut St) {
     }
     let has_ill_typed = g.has_ill_typed;
     let d = g.d.clone();
+    let mut consts = BTreeSet::new();
+    arms.iter().for_each(|p| collect_consts(p, &mut consts));
+    // in a quarter of the tuple cases one primitive component of the scrutinee is a constant of the
+    // program, `match (x.0, 7u8, x.2)`: the arms see a component whose value is known at compile time
+    // (the exhaustiveness verdict is about the type, the results are those for the values with that
+    // component)
+    let fixed: Option<(usize, Val)> = match &t {
+        Ty::Tuple(ts) if ts.len() >= 2 && g.rng.chance(1, 4) => {
+            let k = g.rng.usize_below(ts.len());
+            if matches!(ts[k], Ty::Bool | Ty::Int(_)) {
+                reps(&ts[k], &d, &consts, 1000).filter(|r| !r.is_empty()).map(|r| (k, g.rng.pick(&r).clone()))
+            } else {
+                None
+            }
+        }
+        _ => None,
+    };
+    let scrut = match (&fixed, &t) {
+        (Some((k, c)), Ty::Tuple(ts)) => {
+            st.counts.inc("scrutinee with a constant component");
+            format!("({})", (0..ts.len()).map(|i| if i == *k { ty::val_text(c, &ts[i], &d) } else { format!("x.{i}") }).collect::<Vec<_>>().join(", "))
+        }
+        _ => "x".to_string(),
+    };
     let mut src = defs_text(&d);
-    src += &format!("pub fn main(x: {}) -> (u8, u64) {{\n    match x {{\n", t.show(&d));
+    src += &format!("pub fn main(x: {}) -> (u8, u64) {{\n    match {scrut} {{\n", t.show(&d));
     let mut wanted: Vec<Vec<(String, bool)>> = vec![];
     for (i, p) in arms.iter().enumerate() {
         let mut pb = vec![];
@@ -518,8 +542,6 @@ fn one_case(ctx: &Ctx, rng: &mut Rng, st: &mut St) {
         Ty::Array(..) => "array",
     };
     // oracle
-    let mut consts = BTreeSet::new();
-    arms.iter().for_each(|p| collect_consts(p, &mut consts));
     let cap = 60_000usize;
     let Some(values) = reps(&t, &d, &consts, cap) else {
         st.counts.inc("skipped: representative product too large");
@@ -595,7 +617,15 @@ fn one_case(ctx: &Ctx, rng: &mut Rng, st: &mut St) {
                     };
                     for (l, v) in chunk.iter().enumerate() {
                         st.values += 1;
-                        let (idx, binds) = first_match(v).unwrap();
+                        let seen: Val = match &fixed {
+                            Some((k, c)) => {
+                                let mut w = (**v).clone();
+                                w.elems_mut()[*k] = c.clone();
+                                w
+                            }
+                            None => (**v).clone(),
+                        };
+                        let Some((idx, binds)) = first_match(&seen) else { continue };
                         let want = Val::Tuple(vec![Val::Int(idx as i128 + 1), Val::Int(checksum(&binds, &wanted[idx], &|_| None) as i128)]);
                         let obs = exec::observe(&out, l, &ret, &d);
                         let ok = matches!(&obs, exec::Observed::Value(Some(o), _) if *o == want);
